@@ -3,7 +3,7 @@ import ast
 import z3
 from pyvc.values import *   # noqa
 from pyvc.harness import unit, mutate_function, replace_compare
-from pyvc.loops import LoopSpec, loop_table
+from pyvc.loops import LoopSpec, loop_table, Sel
 from pyvc.ctx import Undecided
 from .so_common import *    # noqa
 from .so_common import F, _clen, _ctype
@@ -125,7 +125,7 @@ def apply_log_entries(ctx):
     # I2: the applied position lies inside the journal (established by __init__/__loadDumpFile, kept by every unit)
     ctx.assume(And(a0 >= to_z3(log0.first), a0 <= log0.last_idx()))
     old = so.snapshot()
-    loops = {APPLY: loop_table(so.mod, APPLY, {0: _apply_loop_spec(so, old)})}
+    loops = {APPLY: loop_table(so.mod, APPLY, {Sel('for', header=('entries',), body=('__doApplyCommand',)): _apply_loop_spec(so, old)})}
     it_obs = []
 
     def after_method(I, f, args, kw, orig=user_method):
